@@ -258,7 +258,7 @@ def configurations(ctx: Ctx) -> list[dict]:
         rng.shuffle(allc)
         quick3 = [tuple(c[:3]) for c in QUICK]
         base = list(QUICK) + [c for c in allc if tuple(c) not in quick3]
-        base = (base + [c for c in allc])[:150]            # 96 distinct (schema, phases, modes) + repeats with other seeds / extras
+        base = (base + [c for c in allc])[:130]            # 96 distinct (schema, phases, modes) + repeats with other seeds / extras
     for i, c in enumerate(base):
         s, p, m = c[:3]
         extras = dict(c[3]) if len(c) > 3 else {}
@@ -442,7 +442,8 @@ def build_units(results: list[dict]):
                         fails = [dg.num("f", f) for f in runs[tag]["failures"] if json.loads(f)[0] == {v: k for k, v in PH.items()}[ph]]
                         logs.append({"lines": [dg.line(r) for r in recs], "fails": fails})
                         index[(tag, ph)] = len(logs)
-                units.append({"a": index[(a, ph)], "b": index[(b, ph)], "ph": ph, "same": same, "wa": wa, "wb": wb, "stateless": True, "how": how})
+                units.append({"a": index[(a, ph)], "b": index[(b, ph)], "ph": ph, "same": same, "wa": wa, "wb": wb, "stateless": True,
+                              "limited": bool(cfg.get("max_failures")), "how": how})
                 meta.append({"cfg": cfg, "a": a, "b": b, "ph": ph, "how": how, "dg": dg, "runs": runs})
     return logs, units, meta
 
@@ -475,6 +476,9 @@ def python_verdict(logs: list, u: dict) -> bool:
     if not u["same"]:
         return True
     if u["wa"] == 1 and u["wb"] == 1:
+        if u.get("limited"):
+            n = min(len(a["lines"]), len(b["lines"]))
+            return a["lines"][:n] == b["lines"][:n] and abs(len(a["lines"]) - len(b["lines"])) <= 1 and set(a["fails"]) == set(b["fails"])
         return a["lines"] == b["lines"] and set(a["fails"]) == set(b["fails"])
     if u["ph"] in ("examples", "coverage", "fuzzing") and u["stateless"]:
         key = lambda x: (x["op"], x["m"], x["u"], x["h"], x["b"])  # noqa: E731
@@ -625,6 +629,10 @@ def run(ctx: Ctx) -> Outcome:
         "between worker threads - both observed while building this check, both outside schemathesis",
         "every child process has its own working directory, i.e. its own empty Hypothesis storage directory (processes that share one race on the "
         "`.hypothesis/constants` cache files of Hypothesis' local-constants feature - a property of Hypothesis, observed while building this check)",
+        "with a failure limit (max_failures) a run is cut short when the consumer thread has counted the limit while the worker may already "
+        "have started the next operation: single-worker logs of such configurations must agree on the common prefix and may differ by at "
+        "most one trailing in-flight request (Repro.tla `limited`); the reported failures must be equal. Observed on /repo: that request is "
+        "sent in ~half of the runs under load, its failure is never reported and its operation is counted as skipped",
         "Hypothesis health checks and deadlines are off and the example database is disabled in every run (timing must not influence traffic)",
     ]
     return out
@@ -653,15 +661,19 @@ def selftest(ctx: Ctx) -> bool:
         {"lines": [base[2], base[0], base[3], base[1]], "fails": []},                       # 5 permutation (same bags)
         {"lines": [base[2], base[0], base[1], base[1]], "fails": []},                       # 6 bag of op 2 differs... op1 has 3
         {"lines": base[:3], "fails": [1, 2]},                                               # 7 shorter
+        {"lines": base[:2], "fails": [1, 2]},                                               # 8 shorter by two
     ]
 
     def unit(a, b, same=True, wa=1, wb=1, ph="fuzzing"):
-        return {"a": a, "b": b, "ph": ph, "same": same, "wa": wa, "wb": wb, "stateless": True, "how": "selftest"}
+        return {"a": a, "b": b, "ph": ph, "same": same, "wa": wa, "wb": wb, "stateless": True, "limited": False, "how": "selftest"}
 
     units = [unit(1, 2), unit(1, 3), unit(1, 4), unit(1, 5, wb=3), unit(1, 6, wb=3), unit(1, 7), unit(1, 3, same=False),
-             unit(1, 6, wb=3, ph="stateful"), unit(1, 5)]
+             unit(1, 6, wb=3, ph="stateful"), unit(1, 5),
+             dict(unit(1, 7), limited=True),        # a failure limit: one trailing in-flight request may be missing - accepted
+             dict(unit(1, 8), limited=True),        # ... but not two
+             dict(unit(1, 3), limited=True)]        # ... and never a difference inside the common prefix
     rejected, accepted, _, _, vacuous, _ = validate(ctx, logs, units, "-selftest")
-    expect = {1: (3, "body"), 2: (5, "failures"), 4: (1, "bag"), 5: (4, "length"), 8: (1, "operation")}
+    expect = {1: (3, "body"), 2: (5, "failures"), 4: (1, "bag"), 5: (4, "length"), 8: (1, "operation"), 10: (3, "length"), 11: (3, "body")}
     if rejected != expect or vacuous:
         print("selftest: TLC rejected", rejected, "expected", expect, "vacuous", vacuous)
     # a data set whose different-seed units are all equal must be flagged as vacuous
